@@ -139,6 +139,8 @@ pub fn jump(bytecode: &Bytecode, _pc: usize, dest: U256) -> Result<usize, ActorE
             format!("jumpdest {dst} is invalid"),
         ));
     }
+    #[cfg(feature = "verif-hooks")]
+    crate::interpreter::verif::on_jump(bytecode.len(), _pc, dst);
     // skip the JMPDEST noop sled
     Ok(dst + 1)
 }
@@ -154,6 +156,8 @@ pub fn jumpi(bytecode: &Bytecode, pc: usize, dest: U256, test: U256) -> Result<u
                 format!("jumpdest {dst} is invalid"),
             ));
         }
+        #[cfg(feature = "verif-hooks")]
+        crate::interpreter::verif::on_jump(bytecode.len(), pc, dst);
         // skip the JMPDEST noop sled
         Ok(dst + 1)
     } else {
